@@ -32,7 +32,7 @@ def run(rep):
 
     rep.rule = ("JsonIR.tla abstracts a form to the (element kind, field) pairs the XForm depends on and transcribes what the survey's own dump deletes; TLC "
                 "checks PathBFaithful on the transcription (it is *expected* to fail exactly for group bind and option extra_data - the model's prediction) and "
-                "enumerates every set of <= 2 (quick) / 3 (thorough) of 33 features. Each set is built as a real form and both round trips run on the real code: "
+                "enumerates every set of <= 2 (quick) / 3 (thorough) of 36 features. Each set is built as a real form and both round trips run on the real code: "
                 "A = workbook_to_json dict -> JSON text -> dict -> builder -> XForm (must equal direct conversion, byte for byte); B = survey.to_json_dict -> JSON "
                 "text -> builder -> survey (dump must be stable, XForm must equal the original). TLC (Trace_JsonIR) judges the four clauses; a path-B loss is "
                 "classified by the features the model predicted to be lost. TLC-generated row structures decorated with every feature are run as well.")
